@@ -10,7 +10,7 @@ import (
 )
 
 func init() {
-	registerRule("required-emitted", 30, "no member the meta-schema requires can be dropped by the encoder from a value decoded from a valid document", ruleRequiredEmitted)
+	registerRule("required-emitted", 38, "no member the meta-schema requires can be dropped by the encoder from a value decoded from a valid document", ruleRequiredEmitted)
 }
 
 // emitSite is one place where a component of a kind is handed to the
